@@ -355,6 +355,9 @@ def decode(harness, vals):
         if base == "c12_binary_get":
             b = r.bytes_n(9, L[0])
             return [call("binary_get", b, r.i128(), r.i128(), r.i128())]
+        if base == "c12_binary_set_window":
+            b = r.bytes_n(10, L[0])
+            return [call("binary_set", b, 0, r.i128(), r.i128(), r.i128())]
         if base == "c12_binary_set":
             b = r.bytes_n(10, L[0])
             return [call("binary_set", b, r.i128(), r.i128(), r.i128(), r.i128())]
